@@ -19,10 +19,19 @@ type FloatV struct {
 	F    float64
 	C    *Term
 	A, B *FloatV
+	Opq  bool // opaque: derived from a symbolic integer; may only flow into logging/formatting, never into a branch
 }
+
+var opaqueFloat = &FloatV{Opq: true}
 
 // fmap2 applies op to every pair of leaves.
 func fmap2(x, y *FloatV, op func(a, b float64) Value) Value {
+	if x.Opq || y.Opq {
+		if _, isF := op(1, 1).(*FloatV); isF {
+			return opaqueFloat
+		}
+		panic(unsupported("comparison of a float derived from a symbolic integer"))
+	}
 	if x.C != nil {
 		return mergeValue(x.C, fmap2(x.A, y, op), fmap2(x.B, y, op))
 	}
@@ -33,6 +42,12 @@ func fmap2(x, y *FloatV, op func(a, b float64) Value) Value {
 }
 
 func fmap1(x *FloatV, op func(a float64) Value) Value {
+	if x.Opq {
+		if _, isF := op(1).(*FloatV); isF {
+			return opaqueFloat
+		}
+		panic(unsupported("conversion of a float derived from a symbolic integer"))
+	}
 	if x.C != nil {
 		return mergeValue(x.C, fmap1(x.A, op), fmap1(x.B, op))
 	}
@@ -389,6 +404,9 @@ func mergeValue(c *Term, a, b Value) Value {
 		return Ite(c, x, y)
 	case *FloatV:
 		y := b.(*FloatV)
+		if x.Opq || y.Opq {
+			return opaqueFloat
+		}
 		if x.C == nil && y.C == nil && (x.F == y.F || (math.IsNaN(x.F) && math.IsNaN(y.F))) {
 			return x
 		}
